@@ -29,15 +29,24 @@ struct SimpleSubject : Subject {
 //   0 "constraints"  universe refined with the constraints, nothing else called
 //   1 "generators"   built by the constructor from a generator system
 //   2 "closed"       as 0, then is_empty() and minimized_constraints() were called (closure / reduction computed)
+//   3 "closed_then_refined"  all constraints but the last, closed, then the last constraint added (closure lost again)
 template <class D>
 struct SimpleDomain : Domain {
-  SimpleDomain(const std::string& nm, bool box) { name = nm; kind = K_ROWS; modes = 3; has_wrap = true; has_cip = true; is_box = box; }
-  const char* mode_name(int m) const { return m == 0 ? "constraints" : m == 1 ? "generators" : "closed"; }
+  SimpleDomain(const std::string& nm, bool box) { name = nm; kind = K_ROWS; modes = 4; extra_from = 3; has_wrap = true; has_cip = true; is_box = box; }
+  const char* mode_name(int m) const { return m == 0 ? "constraints" : m == 1 ? "generators" : m == 2 ? "closed" : "closed_then_refined"; }
   Subject* build(const Built& b, int mode) const {
     SimpleSubject<D>* s = new SimpleSubject<D>(b.n);
     if (mode == 1) {
       if (b.gs[0].begin() == b.gs[0].end()) { D t(b.n, PPL::EMPTY); s->d.m_swap(t); }
       else { D t(b.gs[0]); s->d.m_swap(t); }
+      return s;
+    }
+    if (mode == 3) {
+      std::vector<PPL::Constraint> rows;
+      for (PPL::Constraint_System::const_iterator i = b.cs[0].begin(), e = b.cs[0].end(); i != e; ++i) rows.push_back(*i);
+      for (size_t i = 0; i + 1 < rows.size(); ++i) s->d.refine_with_constraint(rows[i]);
+      (void)s->d.is_empty(); (void)s->d.minimized_constraints();
+      if (!rows.empty()) s->d.refine_with_constraint(rows.back());
       return s;
     }
     s->d.refine_with_constraints(b.cs[0]);
